@@ -150,7 +150,7 @@ Theorem K_equal_sound a b rab rba :
 Proof.
   unfold check_case. intros H. apply app_nil_inv in H as [_ H].
   destruct (is_panic rab || is_panic rba) eqn:Ep.
-  - destruct (has_nil a || has_nil b); discriminate.
+  - discriminate.
   - apply orb_false_iff in Ep as [E1 E2]. apply flag_nil in H.
     apply andb_true_iff in H as [H H3]. apply andb_true_iff in H as [H1 H2].
     assert (rab = rba).
